@@ -26,7 +26,8 @@ LEVEL_TEXT = (
 LEVEL_NOTE = "Scheduler owns the asyncio ready queue / external completions and the pool job order; callbacks are atomic at this level (thread interleavings inside callbacks are explored under C08)."
 DESIGN_REF = "DESIGN.md section 5 and section 6, C09"
 RULE = (
-    "case = (sequence of 1..n top-level mutation fields with sub-selections, resolver style assignment, <=1 injected failure path); "
+    "case = (schema shape {full, single-field root types}, sequence of 1..n top-level mutation fields with sub-selections, written plainly or through "
+    "fragment spreads / inline fragments, resolver style assignment, <=1 injected failure path); "
     "evaluation = one execution checked by the monitor and compared with the reference; non-trivial = distinct (case, config, schedule) "
     "with >= 2 top-level fields and at least one scheduling choice"
 )
@@ -35,7 +36,7 @@ BOUNDS = {
     "quick": {"top_level_fields": 3, "early_bound": 1, "free_order_upto": 4, "styles": "uniform + alternating"},
     "thorough": {"top_level_fields": 4, "early_bound": 2, "free_order_upto": 5, "styles": "all"},
 }
-TIME_CAP = {"quick": 120, "thorough": 1500}
+TIME_CAP = {"quick": 240, "thorough": 1500}
 
 # top-level building blocks: (text, coordinates used)
 BLOCKS = [
@@ -49,36 +50,60 @@ BLOCKS = [
 STYLES = ("sync", "async")
 
 
+SINGLE_BLOCKS = [
+    ("p: m1 { x }", ["Mutation.m1", "Obj.x"]),
+    ("q: m1(id: 2) { x o { x } }", ["Mutation.m1", "Obj.x", "Obj.o"]),
+    ("m1 { y }", ["Mutation.m1", "Obj.y"]),
+]
+
+
+def _wrappings(parts):
+    """the same top-level fields written plainly / through fragments (document order of keys unchanged)"""
+    plain = " ".join(parts)
+    yield "plain", "mutation { %s }" % plain
+    if len(parts) >= 2:
+        yield "spread-all", "mutation { ...Steps } fragment Steps on Mutation { %s }" % plain
+        yield "inline-all", "mutation { ... on Mutation { %s } }" % plain
+        yield "inline-tail", "mutation { %s ... { %s } }" % (parts[0], " ".join(parts[1:]))
+        yield "spread-head", "mutation { ...Head %s } fragment Head on Mutation { %s }" % (" ".join(parts[1:]), parts[0])
+
+
+def _assignments(coords, tier, k):
+    kk = len(coords)
+    if tier == "thorough" and kk <= 4:
+        return list(itertools.product(STYLES, repeat=kk))
+    assigns = [tuple(["sync"] * kk), tuple(["async"] * kk), tuple(STYLES[i % 2] for i in range(kk)), tuple(STYLES[(i + 1) % 2] for i in range(kk))]
+    if k == 3:
+        assigns = assigns[1:3]
+    return assigns
+
+
 def cases(tier):
     b = BOUNDS[tier]
     n = b["top_level_fields"]
-    idx = range(len(BLOCKS))
-    for k in range(1, n + 1):
-        for combo in itertools.permutations(idx, k):
-            if tier == "quick" and k == 3 and list(combo) != sorted(combo):
-                continue
-            if {0, 5} <= set(combo):
-                continue  # m1 twice under different keys is fine, but keep documents small
-            coords = []
-            for i in combo:
-                for c in BLOCKS[i][1]:
-                    if c not in coords:
-                        coords.append(c)
-            if tier == "thorough":
-                assigns = list(itertools.product(STYLES, repeat=len(coords))) if len(coords) <= 4 else None
-            else:
-                assigns = None
-            if assigns is None:
-                kk = len(coords)
-                assigns = [tuple(["sync"] * kk), tuple(["async"] * kk), tuple(STYLES[i % 2] for i in range(kk)), tuple(STYLES[(i + 1) % 2] for i in range(kk))]
-                if k == 3:
-                    assigns = assigns[1:3]
-            for a in assigns:
-                yield {
-                    "query": "mutation { " + " ".join(BLOCKS[i][0] for i in combo) + " }",
-                    "keys": [BLOCKS[i][0].split(":")[0].split(" ")[0] for i in combo],
-                    "custom": dict(zip(coords, a)),
-                }
+    for sdl, blocks in (("full", BLOCKS), ("single", SINGLE_BLOCKS)):
+        idx = range(len(blocks))
+        for k in range(1, n + 1):
+            for combo in itertools.permutations(idx, k):
+                if tier == "quick" and k == 3 and list(combo) != sorted(combo):
+                    continue
+                if sdl == "full" and {0, 5} <= set(combo):
+                    continue
+                coords = []
+                for i in combo:
+                    for c in blocks[i][1]:
+                        if c not in coords:
+                            coords.append(c)
+                parts = [blocks[i][0] for i in combo]
+                keys = [p.split(":")[0].split(" ")[0].split("(")[0] for p in parts]
+                for wname, query in _wrappings(parts):
+                    if wname != "plain" and tier == "quick" and k == 3 and sdl == "full" and combo != (0, 1, 2):
+                        continue
+                    assigns = _assignments(coords, tier, k)
+                    if wname != "plain":
+                        assigns = assigns[1:2] if tier == "quick" else assigns
+                    for a in assigns:
+                        yield {"query": query, "keys": keys, "custom": dict(zip(coords, a)), "sdl": sdl, "wrapping": wname}
 
 
 def _key(obs):
@@ -125,7 +150,7 @@ def check_case(case, st):
 
     b = BOUNDS[st.tier]
     out = []
-    base = {"query": case["query"], "custom": case["custom"]}
+    base = {"query": case["query"], "custom": case["custom"], "sdl": case.get("sdl", "full")}
     paths, ndef = S.invoked_paths(base)
     # top-level fields are serialised, so only the results of one sub-tree are ever pending together:
     # every completion order is affordable
